@@ -176,18 +176,30 @@ def r2(ctx):
     if target is None:
         raise AnalysisError("_retrieve_optimization_results does not assign .clusters")
     t = target.value
+
+    def paired(elt, var):
+        gets = [x for x in tm.subterms(elt) if isinstance(x, App) and x.fn in (".get", ".result")]
+        cls_ = [x for x in tm.subterms(elt) if isinstance(x, Idx) and isinstance(x.base, Attr) and x.base.name == "clusters"]
+        ok = bool(gets) and bool(cls_)
+        for g in gets:
+            recv = g.args[0]
+            ok = ok and isinstance(recv, Idx) and recv.idx == (var,) and recv.base == Sym("optimization_tasks")
+            ok = ok and len(g.args) == 1 and not g.kw
+        for c in cls_:
+            ok = ok and c.idx == (var,)
+        return ok
+
     if not isinstance(t, Comp):
-        raise AnalysisError(f"new cluster list is not built by an ordered loop/comprehension: {str(t)[:100]}")
-    gets = [x for x in tm.subterms(t.elt) if isinstance(x, App) and x.fn in (".get", ".result")]
-    cls_ = [x for x in tm.subterms(t.elt) if isinstance(x, Idx) and isinstance(x.base, Attr) and x.base.name == "clusters"]
-    ok = bool(gets) and bool(cls_)
-    for g in gets:
-        recv = g.args[0]
-        ok = ok and isinstance(recv, Idx) and recv.idx == (t.var,) and recv.base == Sym("optimization_tasks")
-        ok = ok and len(g.args) == 1 and not g.kw
-    for c in cls_:
-        ok = ok and c.idx == (t.var,)
-    ctx.check(ok, cons, "result k (tasks[k].get()) updates cluster k; the new list is in cluster order",
+        # several append sites (branches, handlers): every element appended must still be result k paired with cluster k
+        apps = _append_sites(bc, cons, target)
+        if not apps:
+            raise AnalysisError(f"new cluster list is not built by an ordered loop/comprehension: {str(t)[:100]}")
+        for elt, var, node in apps:
+            ctx.check(paired(elt, var), cons, "every element put in the new cluster list is result k (tasks[k].get()) applied to cluster k",
+                      line=node.lineno, role="consumer:pairing",
+                      expected="update(model.clusters[k], tasks[k].get())", found=str(elt)[:160], template=None)
+        raise AnalysisError(f"the gather loop has {len(apps)} append sites; its length/order cannot be reconstructed: {str(t)[:80]}")
+    ctx.check(paired(t.elt, t.var), cons, "result k (tasks[k].get()) updates cluster k; the new list is in cluster order",
               line=target.stmt.lineno, role="consumer:pairing",
               expected="[update(model.clusters[k], tasks[k].get()) for k in order]", found=str(t)[:160])
     want_len = tm.length(Attr(Sym("model"), "clusters"))
@@ -205,6 +217,33 @@ def r2(ctx):
         ok = dep is not None and any("_setup_optimization_task" in n for n in dep.call_names)
         ctx.check(ok, prod, "the gathered list is the list of submitted tasks", line=cs.node.lineno, role="consumer:same-list",
                   expected="tasks produced by _setup_optimization_task", found=unparse(arg) if arg is not None else "missing")
+
+
+def _append_sites(bc, cons, target):
+    """(element term, loop binder, call node) for each `<list>.append(x)` inside a for loop, where <list> is the variable
+    assigned to .clusters; [] when the shape is something else."""
+    val = target.stmt.value if isinstance(target.stmt, (ast.Assign, ast.AnnAssign)) else None
+    if not isinstance(val, ast.Name):
+        return []
+    out = []
+    pm = _parent_map(cons.node)
+    for n in Resolver.walk_own(cons.node):
+        if isinstance(n, ast.Call) and isinstance(n.func, ast.Attribute) and n.func.attr in ("append", "insert", "extend") \
+                and isinstance(n.func.value, ast.Name) and n.func.value.id == val.id:
+            if n.func.attr != "append" or len(n.args) != 1:
+                return []
+            p = pm.get(id(n))
+            loop = None
+            while p is not None and p is not cons.node:
+                if isinstance(p, ast.For):
+                    loop = p
+                    break
+                p = pm.get(id(p))
+            if loop is None:
+                return []
+            var, _rng = bc.binder_of(loop)
+            out.append((bc.term(n.args[0], bc.at(n)), var, n))
+    return out
 
 
 def _uses_of_def(ana, fi, dnode, name):
@@ -367,13 +406,31 @@ def _only_feeds_pool_size(ana, fi, name) -> bool:
     return True
 
 
+GLOBAL_SETTERS = {"numpy.seterr", "numpy.seterrcall", "numpy.setbufsize", "numpy.set_printoptions", "numpy.random.seed", "random.seed",
+                  "warnings.filterwarnings", "warnings.simplefilter", "warnings.resetwarnings", "logging.basicConfig", "logging.disable",
+                  "os.chdir", "os.putenv", "os.unsetenv", "os.umask", "sys.setrecursionlimit", "sys.setswitchinterval", "locale.setlocale",
+                  "multiprocessing.set_start_method", "numba.set_num_threads", "threading.setprofile", "sys.settrace", "atexit.register",
+                  "signal.signal", "faulthandler.enable", "gc.disable", "gc.enable"}
+
+
 def module_state_writes(ana) -> List[Tuple[FuncInfo, ast.AST, str]]:
-    """Writes to module-level bindings / containers from inside functions, and mutable defaults."""
+    """Writes to module-level bindings / containers from inside functions, mutable defaults, and calls that change
+    process-global settings (they outlive the call, in particular a failed one)."""
     out = []
     for fi in ana.prog.functions.values():
         mi = fi.module
         locs = ana.res.local_names(fi)
         for n in Resolver.walk_own(fi.node):
+            if isinstance(n, ast.Call):
+                r_ = ana.res.fq_of_expr(fi, n.func)
+                if r_ and r_[1] in GLOBAL_SETTERS:
+                    const_seed = r_[1] in ("numpy.random.seed", "random.seed")
+                    if not const_seed:
+                        out.append((fi, n, f"process-global setting changed by {r_[1]}()"))
+            if isinstance(n, (ast.Assign, ast.AugAssign)):
+                for t_ in (n.targets if isinstance(n, ast.Assign) else [n.target]):
+                    if isinstance(t_, ast.Subscript) and unparse(t_.value) == "os.environ":
+                        out.append((fi, n, "os.environ modified"))
             if isinstance(n, (ast.Global, ast.Nonlocal)):
                 for nm in n.names:
                     out.append((fi, n, f"global {nm}"))
